@@ -677,6 +677,11 @@ func check(id, tier string, only int, onlyStream string, writeEvidence bool) int
 		fmt.Printf("KNOWN-FINDING: property=%s %s [key=%s, %d occurrence(s)]\n", id, knownHit[k], k, a.violCount[k])
 	}
 	os.MkdirAll(root+"/replay", 0755)
+	if old, _ := filepath.Glob(fmt.Sprintf("%s/replay/%s-%s-seed%d-*.json", root, id, tier, seed)); only < 0 {
+		for _, f := range old {
+			os.Remove(f)
+		}
+	}
 	for n, v := range unknown {
 		path := fmt.Sprintf("%s/replay/%s-%s-seed%d-%d.json", root, id, tier, seed, n)
 		rb, _ := json.MarshalIndent(map[string]interface{}{
